@@ -30,6 +30,8 @@ def config(W, need_state=True):
     Lmin = W.int("Lmin", lo=1); Jdes = W.int("Jdes", lo=1); Kdes = W.int("Kdes", lo=1)
     if W.sym:
         W.assume(fs > 0); W.assume(olap >= 0); W.assume(olap < 1); W.assume(bmin >= 1); W.assume(bmin * 2 < N); W.assume(Lmin <= N)
+        q = z3.Int("nice!q"); qb = z3.Int("nice!qb")
+        W.nice += [olap.t * 8 == z3.ToReal(q), fs.t == 1, bmin.t * 2 == z3.ToReal(qb), N.t <= 64, Kdes.t <= 64, Jdes.t <= 64]
     return dict(N=N, fs=fs, olap=olap, bmin=bmin, Lmin=Lmin, Jdes=Jdes, Kdes=Kdes)
 
 
@@ -157,9 +159,24 @@ def real_plans(W, sched, cfg, extra_J=(1, 2, 3, 5, 10, 25, 60)):
             Js.append(j)
     out = []
     f = getattr(Sm, SCHED[sched])
-    for J in Js[:8]:
-        kw = dict(N=N, fs=fs, olap=olap, bmin=bmin, Lmin=Lmin, Jdes=J, Kdes=Kdes)
-        rec = {"kw": kw, "bmin_eff": bmin_eff, "Lmin_eff": Lmin_eff}
+    cfgs = [dict(N=N, fs=fs, olap=olap, bmin=bmin, Lmin=Lmin, Jdes=J, Kdes=Kdes, _primary=True) for J in Js[:8]]
+    if N <= 64 and sched != "lpsd":
+        # the abstracted power / arbitrary loop state may not be hit by the model's own configuration: scan the
+        # family that forces every segment length (Lmin clamps the high-frequency bins to L=Lmin)
+        for Lm in range(1, N + 1):
+            for J in (Jm, 3, 12):
+                cfgs.append(dict(N=N, fs=fs, olap=olap, bmin=bmin, Lmin=Lm, Jdes=J, Kdes=Kdes))
+    elif N <= 64:
+        for J in range(1, 40):
+            cfgs.append(dict(N=N, fs=fs, olap=olap, bmin=bmin, Lmin=Lmin, Jdes=J, Kdes=Kdes))
+    seen = set()
+    for kw in cfgs:
+        prim = kw.pop("_primary", False)
+        key = tuple(sorted(kw.items()))
+        if key in seen:
+            continue
+        seen.add(key)
+        rec = {"kw": kw, "bmin_eff": 1.0 if sched == "lpsd" else kw["bmin"], "Lmin_eff": 1 if sched == "lpsd" else kw["Lmin"], "primary": prim}
         try:
             rec["plan"] = f(**kw)
         except BaseException as e:   # sys.exit included
@@ -235,7 +252,8 @@ def plan_checks(rec, sched):
             allb("C04/L-nonincreasing", int(L[j + 1]) <= Lj)
             allb("C04/K-nondecreasing", int(K[j + 1]) >= Kj)
     allb("C03/f0=bmin*fs/N", nf > 0 and abs(f[0] - bmin * fs / N) <= tol * fs)
-    res["C02/analyzer-accepts"] = analyzer_plan(kw, sched) is None
+    if rec.get("primary"):
+        res["C02/analyzer-accepts"] = analyzer_plan(kw, sched) is None
     return res
 
 
@@ -308,13 +326,21 @@ class DView:
         return [(self.tr[1], self.tr[2])]
 
 
-def seg_goals(W, out, cfg, Lmin, which):
+def seg_goals(W, out, cfg, Lmin, which, shift=None):
     """clauses of C02/C04 about the segmentation of the (single) bin in the returned plan"""
     N, olap = cfg["N"], cfg["olap"]
     L, K, navg = out["L"][0], out["K"][0], out["navg"][0]
     L, K, navg = (SR(tz(v)) for v in (L, K, navg))
     D = DView(W, out["D"][0], navg)
     Nt, Lt, Kt = N.t, L.t, K.t
+    if shift is not None and D.kind == "generic":
+        # proved stepping stones for the nonlinear start arithmetic (each is a goal first, then available to later goals)
+        s = toreal(tz(shift))
+        cnt, m = W.run.gen_aranges[-1]
+        W.lemma("C02/lemma:shift*(K-1)=N-L", z3.Implies(Kt > 1, s * toreal(Kt - 1) == toreal(Nt - Lt)))
+        W.lemma("C02/lemma:shift>=0", s >= 0)
+        W.lemma("C02/lemma:shift>=1", z3.Implies(Kt > 1, s >= 1))
+        W.lemma("C02/lemma:m*shift<=N-L", z3.Implies(cnt >= 2, z3.And(toreal(m) * s <= toreal(Nt - Lt), toreal(m + 1) * s <= toreal(Nt - Lt), toreal(m) * s >= 0)))
     if "C02" in which:
         W.goal("C02/K=navg=len(D)", z3.And(Kt == navg.t, D.len_ok))
         W.goal("C02/K>=1", Kt >= 1)
@@ -488,3 +514,83 @@ _GOALS = {
 ALIAS = {"C04/K<=N-L+1": "C04/K=nearest(capped)", "C02/plan-K-is-step-K": "C02/K=navg=len(D)", "C02/start-loop-invariant": "C02/starts-in-range",
          "C02/start-loop-base": "C02/first-start=0", "C02/appended=istart": "C02/starts-in-range", "C02/unwinding:for-range": "C02/starts-in-range",
          "C03/stored": "C03/b=f*L/fs", "C04/|L-L*|<=1/2": None, "C04/r/f=logfact up to rounding": None, "C04/K>=Kdes-level": None}
+
+
+# ============================================================================ vectorized_ltf_plan
+def vec_step(W, cfg):
+    """phase 1 on a generic adjacent pair (g0,g1=rho*g0) of the lookup grid, one walker iteration from an arbitrary state, phase 3"""
+    Sm = S()
+    fd = astx.get_function_ast(Sm.vectorized_ltf_plan)
+    pre, wh, post = split_body(fd)
+    g0 = W.real("g0"); rho = W.real("rho")
+    W.assume(g0 > 0); W.assume(rho > 1)
+    grid = oarr([g0, g0 * rho])
+    st = {}
+
+    def logspace(a, b, n, **k):
+        st["n"] = n
+        return grid.copy().view(SymNd)
+
+    def searchsorted(arr, v, side="left"):
+        # contract (side='left'): arr[idx-1] < v <= arr[idx]; the generic pair is (idx-1, idx) = (0, 1)
+        W.assume(arr[0] < v); W.assume(v <= arr[1])
+        st["searched"] = (arr, v, side)
+        return 1
+    I = astx.Interp(glob_for(Sm, {"np_over": dict(logspace=logspace, searchsorted=searchsorted)}))
+    env = I.block(pre, {"args": dict(cfg)})
+    add_pow_facts(W, cfg)
+    # the grid lies inside [fmin, fmax]; only the looked-up point g1 matters
+    W.assume(grid[1] >= env["fmin"]); W.assume(grid[1] <= env["fmax"])
+    cf = W.real("fi")
+    W.assume(cf >= env["fmin"])
+    env["current_f"] = cf
+    W.assume(I.ev(wh.test, env))
+    env1 = I.block(wh.body, env)
+    add_pow_facts(W, cfg)
+    return I, env, env1, post, rho, st
+
+
+def ob_vec(W, part):
+    cfg = config(W)
+    if not W.sym:
+        return concrete_goals(W, "vec", cfg, _GOALS["vec-" + part])
+    I, env0, env1, post, rho, st = vec_step(W, cfg)
+    N, fs, olap, bmin, Lmin = cfg["N"], cfg["fs"], cfg["olap"], cfg["bmin"], cfg["Lmin"]
+    fi = env0["current_f"]
+    if part == "step":
+        r, L, K = env1["final_r"], env1["final_L"], env1["final_K"]
+        out = run_post(W, I, env1, post, 4)
+        b = out["b"][0]
+        W.goal("C03/searchsorted-side-left", st.get("searched", (0, 0, ""))[2] == "left")
+        step_goals(W, cfg, dict(L=SR(tz(out["L"][0])), K=SR(tz(out["K"][0])), r=out["r"][0], b=b, fnext=env1["current_f"], fi=fi, fmin=env0["fmin"], bmin=bmin, Lmin=Lmin,
+                                rho_inv=1 / rho, stored=(out["f"][0], out["r"][0], out["f"][0] * SR(tz(out["L"][0])) / fs, L, K)))
+        sh = getattr(I, "last_env", {}).get("shift")
+        seg_goals(W, out, cfg, Lmin, ("C02", "C04"), shift=(sh[0] if sh is not None and hasattr(sh, "__len__") and len(sh) == 1 else None))
+        # reported overlap = realised mean overlap (L - (N-L)/(K-1))/L for K>1, 0 otherwise
+        O = out["O"][0]; Lo, Ko = SR(tz(out["L"][0])), SR(tz(out["K"][0]))
+        W.goal("C04/O=nominal-overlap", W.And(W.Implies(Ko > 1, W.eq(O, (Lo - (N - Lo) / (Ko - 1)) / Lo)), W.Implies(Ko <= 1, W.eq(O, 0))))
+        return
+    if part == "twostep":
+        # same generic pair serves a later state only if it is looked up again; monotonicity is a property of the maps:
+        # L_map non-increasing and K_map non-decreasing along the grid (g0 -> g1)
+        Lm, Km = env0["L_map"], env0["K_map"]
+        W.goal("C04/L-nonincreasing", SR(tz(Lm[1])) <= SR(tz(Lm[0])))
+        W.goal("C04/K-nondecreasing", SR(tz(Km[1])) >= SR(tz(Km[0])))
+        return
+    if part == "regime":
+        r, L, K = env1["final_r"], SR(tz(env1["final_L"])), SR(tz(env1["final_K"]))
+        g1 = env0["f_grid"][1]
+        # the lookup evaluates the rule at the grid point g1 >= f: log spacing holds relative to g1
+        regime_goals(W, cfg, env0["clog"], env0["ravg"], g1, L, K, r, bmin, Lmin)
+        return
+    raise ValueError(part)
+
+
+_GOALS["vec-step"] = _GOALS["step"] + _GOALS["seg"] + ["C03/searchsorted-side-left", "C04/O=nominal-overlap", "C02/lemma:shift*(K-1)=N-L", "C02/lemma:shift>=0", "C02/lemma:m*shift<=N-L"]
+_GOALS["vec-step"].append("C02/lemma:shift>=1")
+for _l in ("C02/lemma:shift*(K-1)=N-L", "C02/lemma:shift>=0", "C02/lemma:m*shift<=N-L", "C02/lemma:shift>=1"):
+    ALIAS[_l] = "C02/starts-in-range"
+_GOALS["vec-twostep"] = _GOALS["twostep"]
+_GOALS["vec-regime"] = _GOALS["regime"]
+ALIAS["C04/O=nominal-overlap"] = "C04/O=realised-overlap"
+ALIAS["C03/searchsorted-side-left"] = "C03/b>=bmin-allowance"
